@@ -100,6 +100,23 @@ N["CUR_TOK_TERMINATED"] = 1 if re.search(r"cur_tok\s*\[[^\]]+\]\s*=\s*('\\0'|0)\
 b = func_body("_push_range_list_with_suffix", r"^_push_range_list_with_suffix\s*\(hostlist_t hl, char \*pfx, char \*sfx,\s*$")
 N["HOST_BUF_SIZE"] = need(b, r"char\s+host\s*\[([^\]]+)\]\s*;", "host[] declaration", cexpr)
 N["HOST_BUF_LIMIT"] = need(b, r'snprintf\s*\(\s*host\s*,\s*([^,]+),\s*"%s%0\*lu%s"', "snprintf into host[]", cexpr)
+# the expansion loop `for (j = rng->lo; j <= rng->hi; j++)` must still be there; 1 iff its body leaves the loop after the
+# iteration for hi (the F33 repair: j++ would wrap when hi == ULONG_MAX and the loop would never end)
+if not re.search(r"for\s*\(\s*j\s*=\s*rng->lo\s*;\s*j\s*<=\s*rng->hi\s*;\s*j\+\+\s*\)", b):
+    die("_push_range_list_with_suffix: loop `for (j = rng->lo; j <= rng->hi; j++)` not found any more")
+N["SUFFIX_LOOP_BREAKS"] = 1 if re.search(r"if\s*\(\s*j\s*==\s*rng->hi\s*\)\s*(?:/\*.*?\*/\s*)?break\s*;", b, re.S) else 0
+
+# --- hostrange_intersect: how an out-of-order pair is treated.  0 = assert(hostrange_cmp(h1, h2) <= 0) (abort when
+# assert() is compiled in); 1 = `if (hostrange_cmp(h1, h2) > 0) return NULL;` (the F36 repair: always evaluated)
+b = func_body("hostrange_intersect", r"^static hostrange_t hostrange_intersect\s*\(hostrange_t h1, hostrange_t h2\)\s*$")
+b = re.sub(r"/\*.*?\*/", " ", b, flags=re.S)      # comments may mention hostrange_cmp()
+has_assert = re.search(r"assert\s*\(\s*hostrange_cmp\s*\(\s*h1\s*,\s*h2\s*\)\s*<=\s*0\s*\)\s*;", b) is not None
+has_check = re.search(r"if\s*\(\s*hostrange_cmp\s*\(\s*h1\s*,\s*h2\s*\)\s*>\s*0\s*\)\s*return\s+NULL\s*;", b) is not None
+if has_assert == has_check:
+    die("hostrange_intersect: expected exactly one of `assert(hostrange_cmp(h1, h2) <= 0);` / `if (hostrange_cmp(h1, h2) > 0) return NULL;`")
+if len(re.findall(r"hostrange_cmp\s*\(", b)) != 1:
+    die("hostrange_intersect: hostrange_cmp is called more than once (the comparator rewrites widths: model covers one call)")
+N["INTERSECT_ORDER_CHECK"] = 1 if has_check else 0
 
 # --- hostlist_next: suffix[]
 b = func_body("hostlist_next", r"^char \*hostlist_next\s*\(hostlist_iterator_t i\)\s*$")
@@ -140,12 +157,14 @@ doc = {
     "RANGES_ARRAY": "struct _range ranges[..]",
     "RANGES_LEN_ARG": "len argument of _parse_range_list",
     "HOST_BUF_SIZE": "char host[..] in _push_range_list_with_suffix", "HOST_BUF_LIMIT": "snprintf(host, .., ...)",
+    "INTERSECT_ORDER_CHECK": "hostrange_intersect on an out-of-order pair: 0 = assert(hostrange_cmp(h1,h2) <= 0), 1 = if (hostrange_cmp(h1,h2) > 0) return NULL",
+    "SUFFIX_LOOP_BREAKS": "1 iff the loop for (j = lo; j <= hi; j++) of _push_range_list_with_suffix breaks after j == hi",
     "NEXT_SUFFIX_SIZE": "char suffix[..] in hostlist_next", "NEXT_SUFFIX_LIMIT": "snprintf(suffix, .., ...)",
     "HRSTR_BUF_SIZE": "char buf[..] in _hostrange_string", "HRSTR_LIMIT": "snprintf(buf, .., ...) limit (both calls)",
     "NDEBUG": "0 = assert() is compiled in",
 }
 for k in ["MAX_HOST_SUFFIX", "MAX_RANGE", "MAX_RANGES", "HOSTLIST_CHUNK", "MAXHOSTNAMELEN", "MAXHOSTRANGELEN",
-          "CUR_TOK_SIZE", "CUR_TOK_COPY", "CUR_TOK_TERMINATED", "RANGES_ARRAY", "RANGES_LEN_ARG", "HOST_BUF_SIZE", "HOST_BUF_LIMIT",
+          "CUR_TOK_SIZE", "CUR_TOK_COPY", "CUR_TOK_TERMINATED", "RANGES_ARRAY", "RANGES_LEN_ARG", "HOST_BUF_SIZE", "HOST_BUF_LIMIT", "SUFFIX_LOOP_BREAKS", "INTERSECT_ORDER_CHECK",
           "NEXT_SUFFIX_SIZE", "NEXT_SUFFIX_LIMIT", "HRSTR_BUF_SIZE", "HRSTR_LIMIT", "NDEBUG"]:
     L.append("Definition %s : N := %d.%s" % (k, N[k], ("   (* %s *)" % doc[k]) if k in doc else ""))
 L.append("")
